@@ -269,6 +269,7 @@ pub fn worker_main(engine: &dyn Engine, tier: Tier, vseed: u64, start: u64, step
     let info = engine.info();
     let out = std::io::stdout();
     let mut stats = Stats::default();
+    let digest = std::env::var("VERIF_DIGEST_OUT").is_ok();
     let mut since_flush = 0u64;
     let mut k = start;
     while k < end {
@@ -279,9 +280,38 @@ pub fn worker_main(engine: &dyn Engine, tier: Tier, vseed: u64, start: u64, step
         }
         let seed = case_seed(vseed, info.property, k);
         arm_cpu_timer(CASE_CPU_LIMIT_S);
+        let mut case_stats = Stats::default();
         let r = std::panic::catch_unwind(std::panic::AssertUnwindSafe(|| {
-            engine.run_case(k, seed, tier, &mut stats)
+            engine.run_case(k, seed, tier, &mut case_stats)
         }));
+        if digest {
+            // determinism self-test: a digest of everything the case did
+            let mut h = Fnv::default();
+            for (key, val) in &case_stats.counters {
+                h.bytes(key.as_bytes());
+                h.u64(*val);
+            }
+            for x in &case_stats.shapes {
+                h.u64(*x);
+            }
+            for x in &case_stats.states {
+                h.u64(*x);
+            }
+            if let Ok(vs) = &r {
+                for v in vs {
+                    h.bytes(v.class.as_bytes());
+                    h.bytes(v.detail.as_bytes());
+                }
+            }
+            let mut o = out.lock();
+            let _ = writeln!(o, "D {k} {:016x}", h.0);
+        }
+        stats.merge(&case_stats);
+        for s in case_stats.samples {
+            if !stats.samples.contains(&s) && stats.samples.len() < 3 {
+                stats.samples.push(s);
+            }
+        }
         match r {
             Ok(vs) => {
                 stats.inc("cases");
@@ -469,6 +499,7 @@ pub fn supervise(engine: &dyn Engine, tier: Tier, vseed: u64) -> RunOutcome {
     let mut crashes: Vec<(u64, &'static str)> = vec![]; // (k, "abort"|"hang")
     let mut harness_errors: Vec<(u64, String)> = vec![];
     let mut truncated = false;
+    let mut digests: BTreeMap<u64, String> = BTreeMap::new();
 
     loop {
         if ws.iter().all(|w| w.done) {
@@ -520,6 +551,14 @@ pub fn supervise(engine: &dyn Engine, tier: Tier, vseed: u64) -> RunOutcome {
                             "P" => {
                                 if let Ok(v) = serde_json::from_str::<Value>(rest) {
                                     stats.merge(&Stats::from_json(&v));
+                                }
+                            }
+                            "D" => {
+                                let mut it = rest.split_whitespace();
+                                if let (Some(k), Some(h)) = (it.next(), it.next()) {
+                                    if let Ok(k) = k.parse::<u64>() {
+                                        digests.insert(k, h.to_string());
+                                    }
                                 }
                             }
                             "E" => {
@@ -594,6 +633,13 @@ pub fn supervise(engine: &dyn Engine, tier: Tier, vseed: u64) -> RunOutcome {
         }
     }
     let run_wall = t0.elapsed().as_secs_f64();
+    if let Ok(p) = std::env::var("VERIF_DIGEST_OUT") {
+        let mut s = String::new();
+        for (k, h) in &digests {
+            s += &format!("{k} {h}\n");
+        }
+        let _ = std::fs::write(p, s);
+    }
 
     // ---------------------------------------------------------------- triage
     found.sort_by(|a, b| (a.k, &a.class).cmp(&(b.k, &b.class)));
